@@ -214,13 +214,22 @@ def _case(rng: Rng, tier, entry=None, force=None):
         g1, g2 = _grid01(rng, m1), _grid01(rng, m2)
         # mixed dtypes per axis: an INTEGER array (np.arange-like) on the first axis, floats on the second; the same
         # locations are also requested with a float first axis (query set 'asfloat')
-        int0 = not entry.startswith("LocalPolynomial") and (force.get("int_axis0") or rng.random() < 0.45)
+        same_axes = bool(force.get("same_axes")) or (not force.get("int_axis0") and rng.random() < 0.3)
+        int0 = not same_axes and not entry.startswith("LocalPolynomial") and (force.get("int_axis0") or rng.random() < 0.45)
         if int0:
             m1 = rng.randint(6, 8)
             dom = f"int:{rng.choice([0, 1, -3, 100])}:{m1 - 1}"
             case["dom"], case["int_axis0"] = dom, True
             g1 = [Fraction(i, m1 - 1) for i in range(m1)]
         dom2 = rng.choice(["unit", "neg", "doy", "end0", "sym", "allneg"])
+        if same_axes:
+            # the two directions have DIFFERENT domains (the second contains the first) but the same smoothing options; the
+            # request uses the SAME abscissae on both axes (square grids, a single location (u, u))
+            dom = rng.choice(["unit", "end0"])
+            dom2 = {"unit": rng.choice(["neg", "sym"]), "end0": rng.choice(["neg", "sym", "allneg"] if False else ["neg", "sym"])}[dom]
+            case["dom"], case["same_axes"] = dom, True
+            if method == "PS":
+                case["nseg"][1], case["deg"][1], case["pen"][1] = case["nseg"][0], case["deg"][0], case["pen"][0]
         case["dom2"] = dom2
         case["x"] = [rs(t) for t in _scale_pts(dom, g1)]
         case["x2"] = [rs(t) for t in _scale_pts(dom2, g2)]
@@ -250,6 +259,12 @@ def _case(rng: Rng, tier, entry=None, force=None):
                                 ["superxsub", sorted(set(Q1s) | {case["x"][0]}, key=F), Q2s[:2]]]
         if int0:
             case["variants"].append(["asfloat", case["Q"], case["Q2"]])
+        if same_axes:
+            Qs = case["Q"][:4]
+            extra = case["x"][0]
+            case["Q"], case["Q2"] = Qs, Qs
+            case["variants"] = [["square_sub", Qs[1:3], Qs[1:3]], ["diagonal_point", [Qs[2]], [Qs[2]]], ["same_plus_one", Qs, sorted(set(Qs) | {extra}, key=F)],
+                                ["one_plus_same", sorted(set(Qs) | {extra}, key=F), Qs], ["square_reversed", Qs[::-1], Qs[::-1]], ["rect", Qs[:2], Qs[1:]]]
         if method == "LP":
             case["hu"] = rs(rng.choice([Fraction(1, 2), Fraction(3, 4), Fraction(1)]))
             case["degree"] = rng.choice([0, 1, 1, 2])
@@ -402,6 +417,9 @@ def gen_cases(rng: Rng, tier):
     for entry, method in (("DenseFunctionalData.smooth2d", "LP"), ("DenseFunctionalData.smooth2d", "PS"), ("PSplines.predict2d", "PS")):
         yield _case(rng, tier, entry, dict(method=method, nonconst=True, int_axis0=True))
         k += 1
+    for entry, method in (("PSplines.predict2d", "PS"), ("PSplines.predict2d", "PS"), ("DenseFunctionalData.smooth2d", "PS"), ("DenseFunctionalData.smooth2d", "LP"), ("LocalPolynomial.predict2d", "LP")):
+        yield _case(rng, tier, entry, dict(method=method, nonconst=True, same_axes=True))
+        k += 1
     for entry in ("LocalPolynomial.predict", "DenseFunctionalData.smooth", "DenseFunctionalData.mean", "IrregularFunctionalData.smooth", "IrregularFunctionalData.mean"):
         yield _case(rng, tier, entry, dict(method="LP", dom=rng.choice(["unit", "doy", "end0"]), nonconst=True, gap=True, far=True))
         k += 1
@@ -524,7 +542,7 @@ def _dargs(v, v2=None, case=None, name=None):
 
     d = {"input_dim_0": _np0(case, v, name) if case is not None else _np(v)}
     if v2 is not None:
-        d["input_dim_1"] = _np(v2)
+        d["input_dim_1"] = d["input_dim_0"] if (v2 == v and d["input_dim_0"].dtype == float) else _np(v2)   # same object when the axes coincide
     return DenseArgvals(d)
 
 
@@ -588,7 +606,9 @@ def run_impl(case):
             ps.fit(Y, [x1, x2], penalty=tuple(float(F(p)) for p in case["pen"]))
             fit = dict(beta=np.array(ps.beta_hat).tolist(), dom=[(float(x1.min()), float(x1.max())), (float(x2.min()), float(x2.max()))], nseg=case["nseg"], deg=case["deg"])
             for nm, p1, p2 in calls:
-                out["calls"].append(dict(name=nm, vals=np.asarray(ps.predict([_np0(case, p1, nm), _np(p2)])).tolist(), fits=[fit]))
+                a1 = _np0(case, p1, nm)
+                a2 = a1 if (p2 == p1 and a1.dtype == float) else _np(p2)       # same object when the axes coincide
+                out["calls"].append(dict(name=nm, vals=np.asarray(ps.predict([a1, a2])).tolist(), fits=[fit]))
             out["y_hat"] = np.asarray(ps.y_hat).tolist()
             out["at_x"] = np.asarray(ps.predict([x1, x2])).tolist()
         return out
@@ -1063,4 +1083,6 @@ def classify(case, impl):
         tags.append("gaussian-far-4..10h" if case.get("far") else "gap>2h")
     if case.get("int_axis0"):
         tags.append("int-dtype-axis0")
+    if case.get("same_axes"):
+        tags.append("coinciding-request-axes")
     return tags
